@@ -73,6 +73,7 @@ def work(job):
         out.update(
             paths=res.paths,
             paths_by_outcome=res.paths_by_outcome,
+            vacuous_paths=list(getattr(res, "vacuous_paths", [])),
             unsupported=res.unsupported,
             engine_errors=res.engine_errors,
             missing=res.missing,
@@ -91,6 +92,10 @@ def work(job):
         for ob in obs:
             rec = _ob_record(ob)
             rec["label"] = _label_of(ob.name)
+            if ob.status == "refuted" and ob.meta.get("transplanted"):
+                # the contract's loop specification was tried on a loop that now lives in a helper and does not carry the proof there
+                ob.status = rec["status"] = "undecided"
+                rec["detail"] = (rec.get("detail") or "") + " | not covered: %s, and the obligation is not provable from it" % ob.meta["transplanted"]
             if ob.status == "refuted":
                 rec["solver_output"] = _model_text(ob)
                 rec["replay"] = _replay(E, con, fi, ob, seed) if ob.kind != "static" else {"confirmed": False, "why": "static wiring obligation: no input involved"}
